@@ -499,11 +499,17 @@ impl ViCut {
 					// Override the counts with the one passed to the '.' command
 					if cmd.verb.is_some() {
 						if let Some(v_mut) = cmd.verb.as_mut() {
-							v_mut.0 = count
+							v_mut.0 = count;
+							// These verbs carry their count themselves
+							if let Verb::ReplaceCharInplace(_,n) | Verb::ToggleCaseInplace(n) = &mut v_mut.1 {
+								*n = count as u16;
+							}
 						}
 						if let Some(m_mut) = cmd.motion.as_mut() {
 							m_mut.0 = 1
 						}
+						// Parsed commands keep their count on the motion; so must a repeated one
+						cmd.normalize_counts();
 					} else {
 						return Ok(()) // it has to have a verb to be repeatable, something weird happened
 					}
